@@ -709,6 +709,30 @@ def capsOf (attrs : List (String × Attr)) (callable : Bool) (isSplit : Bool := 
     Caps :=
   { attr := fun n => (attrs.lookup n).getD .absent, callable := callable, isSplit := isSplit, isNone := isNone }
 
+/-- Python truthiness (`bool(v)`) of a flow value; `quot 0 0` stands for `None` (see `drivers/C05.lean`) -/
+def truthy : Value → Bool
+  | .int i => i != 0
+  | .str s => s != ""
+  | .quot n _ => n != 0
+  | .list xs => !xs.isEmpty
+  | .tup xs => !xs.isEmpty
+  | .dict kvs => !kvs.isEmpty
+
+/-- selectors that do not return a `bool`: `Filter.run` and `Filter.fill_into` use the truthiness of the result -/
+inductive TPred where
+  /-- `lambda v: get_data(v) % 2` (an `int`; `TypeError` for other data) -/
+  | oddInt
+  /-- `lambda v: get_data(v)` (the data itself: `0`, `""`, `[]`, `()`, `None` are falsy) -/
+  | dataSelf
+  deriving Repr, DecidableEq
+
+def TPred.eval : TPred → Value → Except Exc Bool
+  | .oddInt, v =>
+    match getData v with
+    | .int i => .ok (i % 2 != 0)
+    | _ => .error .typeError
+  | .dataSelf, v => .ok (truthy (getData v))
+
 /-- element descriptions sent by the harness (`harness/props/c05.py: build`) -/
 inductive Spec where
   /-- a plain function -/
@@ -738,6 +762,10 @@ inductive Spec where
   /-- a Run element with `_can_break_flow` whose `run` yields two values, `v` and `[v]`, for every value `v`
   (a flow-breaking element other than `RunIf`, like `MapGroup`) -/
   | dup
+  /-- `lena.flow.Filter(q)` for a selector that returns a truthy / falsy non-`bool` -/
+  | filterT (q : TPred)
+  /-- the callable `lambda v: c` for a constant `c` (`None`, `0`, `[]`, `()`, …) -/
+  | const (c : Value)
 
 /-- the synthetic classes' `fill` appends to a list, `compute` yields `["fc", [filled values]]` -/
 def synAcc : Acc AccState Value :=
@@ -791,6 +819,11 @@ def Spec.toObj : Spec → Except Exc Obj
           accDen := synAcc }
   | .junk => .ok { caps := capsOf [] false }
   | .setContext => .ok { caps := capsOf [] false, hasNoData := true }
+  | .filterT q =>
+    .ok { caps := capsOf [("run", .method), ("fill_into", .method)] false
+          runDen := fun s => .ok (filterS q.eval s)
+          fillIntoDen := .filter q.eval }
+  | .const c => .ok { caps := capsOf [] true, callDen := fun _ => .ok c }
   | .dup =>
     .ok { caps := capsOf [("run", .method), ("_can_break_flow", .value)] false
           runDen := fun s => .ok (bindS (fun v => .ofList [v, .list [v]]) s) }
@@ -922,7 +955,26 @@ def driveSeqOfChain (args : List Spec) (flow : List Value) : Option (Strm Value)
     | .error _ => none
     | .ok c => some (seqRun c flow)
 
-/-- executable form of "the element description is of the property's pre-processing kinds" -/
+mutual
+/-- the object keeps no state between two calls of its `run`/`__call__`: running it afresh for every value — which is
+what the pure `Stage` of a `RunIf`'s inner sequence does in this model — is then what the one Python object does.
+`Count.run` adds to `self.count`, an accumulator behind `Run._fc_run` keeps what it was filled with, the synthetic
+classes may do either: not stateless. -/
+def Spec.stateless : Spec → Bool
+  | .count _ => false
+  | .acc _ => false
+  | .syn _ _ _ => false
+  | .runIf _ inner => Spec.statelessL inner
+  | .runIfBad inner => Spec.statelessL inner
+  | _ => true
+def Spec.statelessL : List Spec → Bool
+  | [] => true
+  | s :: ss => s.stateless && Spec.statelessL ss
+end
+
+/-- executable form of "the element description is of the property's pre-processing kinds, as far as this model
+covers them": callable, `Variable`, `Filter`, non-negative `Slice`, `RunIf` **with a stateless inner sequence**,
+another flow-breaking Run element -/
 def Spec.inScopeB : Spec → Bool
   | .call _ => true
   | .var _ _ => true
@@ -931,8 +983,10 @@ def Spec.inScopeB : Spec → Bool
     match Lena.C17.mkSlice a b s with
     | .islice _ _ _ => true
     | _ => false
-  | .runIf _ _ => true
+  | .runIf _ inner => Spec.statelessL inner
   | .dup => true
+  | .filterT _ => true
+  | .const _ => true
   | _ => false
 
 /-! ## specification side of the adapters (used by `Props/C05.lean`, evaluated by the driver) -/
@@ -1016,5 +1070,83 @@ def countRunSpec (name : String) (ys : List Value) : List Value :=
   match ys.getLast? with
   | none => []
   | some last => ys.dropLast ++ [.tup [getData last, .dict (dictSet (getContext last) name (.int ys.length))]]
+
+/-! ## what the adapters' exposed methods *do* (sentence 2: "preserve the meaning of the wrapped method")
+
+`Meths` gives the behaviour of an object's methods by name, for the role in which an adapter uses them
+(`None` where this model gives the use no meaning, e.g. `Run(el, run="fill")`).  `denRun`, `denCall`,
+`denFillInto`, `denFillCompute` are the behaviour of the method an adapter exposes, as a function of the binding
+chosen by `mkRun` …; the driver evaluates them on samples and the harness compares with the real adapters. -/
+
+structure Meths where
+  /-- `getattr(el, name)(value)` -/
+  callM : String → Option (Value → Except Exc Value)
+  /-- `getattr(el, name)(flow)` -/
+  runM : String → Option (Stage Value)
+  /-- `getattr(el, name)(element, value)`, as a pre-processing stage -/
+  fillIntoM : String → Option (Pre Value)
+  /-- `getattr(el, fill)(value)` / `getattr(el, compute)()` -/
+  accM : String → String → Option (Acc AccState Value)
+
+/-- the standard names of an object, from its faces -/
+def Obj.meths (o : Obj) : Meths where
+  callM n := if n == "__call__" && o.caps.callable then some o.callDen else none
+  runM n := if n == "run" && o.caps.hasMethod "run" then some o.runDen else none
+  fillIntoM n := if n == "fill_into" && o.caps.hasMethod "fill_into" then some o.fillIntoDen else none
+  accM f c := if f == "fill" && c == "compute" && o.caps.isFillComputeEl then some o.accDen else none
+
+/-- the synthetic classes of the harness: besides the standard names, any other method `m(self, *args)` leaves the
+mark `[name, …]`: called with a value it returns `[name, value]`; called with a flow it drains it and returns the
+list `[name, [values]]`; called with `(element, value)` it fills `[name, value]`; `<x>_fill` / `<x>_compute` are
+a fill/compute pair that records `[<x>_fill, value]` and yields `[<x>_compute, [recorded]]` -/
+def synMeths (attrs : List (String × Attr)) (o : Obj) : Meths where
+  callM n :=
+    if n == "__call__" then (if o.caps.callable then some o.callDen else none)
+    else if (attrs.lookup n).getD .absent == .method && n != "run" && n != "fill" && n != "compute"
+        && n != "fill_into" && n != "request" then some (fun v => .ok (.list [.str n, v]))
+    else none
+  runM n :=
+    if n == "run" then (if o.caps.hasMethod "run" then some o.runDen else none)
+    else if (attrs.lookup n).getD .absent == .method && n != "fill" && n != "compute" && n != "fill_into"
+        && n != "request" then
+      some (fun s => match s.term with
+        | some e => .error e
+        | none => .ok (.ofList [.str n, .list s.vals]))
+    else none
+  fillIntoM n :=
+    if n == "fill_into" then (if o.caps.hasMethod "fill_into" then some o.fillIntoDen else none)
+    else if (attrs.lookup n).getD .absent == .method && n != "run" && n != "fill" && n != "compute"
+        && n != "request" then some (.call (fun v => .ok (.list [.str n, v])))
+    else none
+  accM f c :=
+    if f == "fill" && c == "compute" then (if o.caps.isFillComputeEl then some o.accDen else none)
+    else if f == "my_fill" && c == "my_compute" && (attrs.lookup f).getD .absent == .method
+        && (attrs.lookup c).getD .absent == .method then
+      some { init := {}
+             fill := fun s v => .ok { s with group := s.group ++ [.list [.str "my_fill", v]] }
+             compute := fun s => .ok [.list [.str "my_compute", .list s.group]] }
+    else none
+
+/-- the behaviour of `Call(el, call=…).__call__` for a binding -/
+def denCall (o : Obj) (ms : Meths) : CallMode → Option (Value → Except Exc Value)
+  | .self => some o.callDen
+  | .method n => ms.callM n
+  | .iter => none
+
+/-- the behaviour of `Run(el, run=…).run` for a binding (`given`: the function handed over with `Run(None, run=f)`) -/
+def denRun (o : Obj) (ms : Meths) (given : Stage Value) : RunMode → Option (Stage Value)
+  | .method n => ms.runM n
+  | .callRun => some (fun s => .ok (mapS o.callDen s))
+  | .fcRun => some (fcRun o.accDen)
+  | .given => some given
+
+/-- the behaviour of `FillInto(el, fill_into=…).fill_into` for a binding, as a pre-processing stage -/
+def denFillInto (o : Obj) (ms : Meths) : FillIntoMode → Option (Pre Value)
+  | .method n => ms.fillIntoM n
+  | .callDefault => some (.call o.callDen)
+  | .runFillInto => some (.runEl o.runDen)
+
+/-- the behaviour of `FillCompute(el, fill=…, compute=…)` for the bound pair of names -/
+def denFillCompute (ms : Meths) (b : String × String) : Option (Acc AccState Value) := ms.accM b.1 b.2
 
 end Lena.C05
